@@ -19,7 +19,7 @@ Three things happen on every explored call of the real `menelaus.concept_drift.M
 Exploration:
   plain   every sequence over the 7-symbol alphabet PLAIN (legal and illegal calls) up to a
           length, each prefix on its own deep copy of the detector (no reduction at all);
-  reduced every sequence over the 16-symbol alphabet FULL up to a larger length, where the
+  reduced every sequence over the 17-symbol alphabet FULL up to a larger length, where the
           subtree below a *refused* call is cut only after verifying that the complete
           attribute state of the detector (deep comparison of `vars(det)`, data frames
           included) is identical to the state before the call — the continuations are then
@@ -39,7 +39,9 @@ TRUST = [
     "sklearn KFold(shuffle, random_state=42) / clone / accuracy_score and numpy mean/std: the k-fold reference statistics are an "
     "oracle input of the model, recomputed by the harness from its own copy of the data with the public sklearn API",
     "margin bit and correctness bit of a sample are oracle inputs, computed by the harness with the user margin function / "
-    "classifier it handed to MD3 (a deterministic threshold classifier whose fit() sets the threshold to the mean training score)",
+    "classifier it handed to MD3 (a deterministic feature-asymmetric threshold classifier, score 2*col0 - col1 read positionally, "
+    "whose fit() sets the threshold to the mean training score); the correctness bit is taken with the features in the current "
+    "reference's column order, which after an adoption is the order of that round's first labelled sample (as the code has it)",
     "excluded: k larger than the reference size or than oracle_data_length_required (KFold undefined; DESIGN §6), NaN/inf data",
     "reduced exploration: a refused call is not extended further once vars(detector) compared deeply equal before/after it "
     "(determinism of the implementation on equal attribute state)",
@@ -56,7 +58,8 @@ NUMERIC = {"md", "lam", "ref_md", "ref_md_std", "ref_acc", "ref_acc_std"}
 
 # ------------------------------------------------------------------ classifier / margin
 class ThrClf:
-    """score = x1 + x2; fit: threshold := mean training score; predict: score > threshold"""
+    """score = 2*col0 - col1, read POSITIONALLY from whatever array / frame it is given (as sklearn estimators do), so that a
+    permutation of the feature columns is visible; fit: threshold := mean training score; predict: score > threshold"""
 
     def __init__(self, width=1.0):
         self.width = width
@@ -71,12 +74,12 @@ class ThrClf:
 
     def fit(self, X, y=None):
         X = np.asarray(X, dtype=float)
-        self.t_ = float(np.mean(X[:, 0] + X[:, 1]))
+        self.t_ = float(np.mean(2 * X[:, 0] - X[:, 1]))
         return self
 
     def decision_function(self, X):
         X = np.asarray(X, dtype=float)
-        return X[:, 0] + X[:, 1] - self.t_
+        return 2 * X[:, 0] - X[:, 1] - self.t_
 
     def predict(self, X):
         return (self.decision_function(X) > 0).astype(int)
@@ -84,7 +87,7 @@ class ThrClf:
 
 def margin(det, sample, clf):
     """user-supplied margin inclusion signal: |score - threshold| <= width"""
-    return 1 if abs(float(sample[0]) + float(sample[1]) - clf.t_) <= clf.width else 0
+    return 1 if abs(2 * float(sample[0]) - float(sample[1]) - clf.t_) <= clf.width else 0
 
 
 _STATS = {}
@@ -98,7 +101,7 @@ def ref_stats(rows, k, width=1.0):
     from sklearn.model_selection import KFold
     from sklearn.metrics import accuracy_score
     from sklearn.base import clone
-    X = np.array([[r[0], r[1]] for r in rows], dtype=float)
+    X = np.array([[r[0], r[1]] for r in rows], dtype=float)      # columns in the order the adopted frame has them
     y = np.array([r[2] for r in rows], dtype=int)
     dup = clone(ThrClf(width))
     mds, accs = [], []
@@ -124,7 +127,7 @@ class Sym:
             pd.DataFrame({c: np.array([], dtype=float) for c in self.cols})
         if "y" in self.cols and len(set(self.cols)) == len(self.cols):
             self.frame["y"] = self.frame["y"].astype(int)
-        self.sample = None      # (x1, x2, y) for a well-formed one-row labelled sample
+        self.sample = None      # (x1, x2, y, feature order in the frame) for a well-formed one-row labelled sample
         self.sig = 0
         self.correct = 0
 
@@ -160,30 +163,37 @@ class Config:
         s = Sym(name, "l", data, cols)
         if s.rows == 1 and len(cols) == 3 and set(cols) == set(COLS):
             d = dict(zip(cols, data[0]))
-            s.sample = (float(d["x1"]), float(d["x2"]), int(d["y"]))
-            s.correct = int(int(self.clf.predict(np.array([[d["x1"], d["x2"]]]))[0]) == int(d["y"]))
-            s.sig = margin(None, np.array([d["x1"], d["x2"]], dtype=float), self.clf)
+            s.sample = (float(d["x1"]), float(d["x2"]), int(d["y"]), tuple(c for c in cols if c != "y"))
         self.syms[name] = s
         return s
 
+    def pt(self, s, x2=0.0):
+        """(x1, x2) whose score 2*x1 - x2 is the classifier's threshold + s"""
+        return ((self.t + s + x2) / 2, x2)
+
     def standard_symbols(self):
-        t = self.t
-        self.update_sym("Ui", [(t + 0.5, 0.0)])                 # in the margin
-        self.update_sym("Uo", [(t + 8.0, 0.0)])                 # outside
-        self.update_sym("U2", [(t + 0.5, 0.0), (t + 8.0, 0.0)])  # two rows: refused
+        pt = self.pt
+        self.update_sym("Ui", [pt(0.5)])                        # in the margin
+        self.update_sym("Uo", [pt(8.0)])                        # outside
+        self.update_sym("U2", [pt(0.5), pt(8.0)])               # two rows: refused
         self.update_sym("U0", [])                               # no row: refused
-        self.update_sym("U3", [(t + 0.25, 0.25, 7.0)], cols=("x1", "x2", "w"))   # extra column: update does not look at columns
-        self.label_sym("Lc", [(t + 8.0, 0.0, 1)])               # classifier right, outside the margin
-        self.label_sym("Lw", [(t - 0.5, 0.0, 1)])               # classifier wrong, inside the margin
-        self.label_sym("Ld", [(t - 8.0, 0.0, 0)])               # right, outside, other class
-        self.label_sym("Lv", [(t + 0.5, 0.0, 0)])               # wrong, inside
-        self.label_sym("Lp", [(1, t + 4.0, 0.0)], cols=("y", "x1", "x2"))        # permuted columns: same set, accepted
-        self.label_sym("L2", [(t + 8.0, 0.0, 1), (t - 0.5, 0.0, 1)])             # two rows: refused
+        self.update_sym("U3", [pt(0.25, 0.25) + (7.0,)], cols=("x1", "x2", "w"))   # extra column: update does not look at columns
+        self.label_sym("Lc", [pt(8.0) + (1,)])                  # classifier right, outside the margin
+        self.label_sym("Lw", [pt(-0.5) + (1,)])                 # classifier wrong, inside the margin
+        self.label_sym("Ld", [pt(-8.0) + (0,)])                 # right, outside, other class
+        self.label_sym("Lv", [pt(0.5) + (0,)])                  # wrong, inside
+        # same set of columns, features swapped in the frame: accepted.  In the reference's order the classifier is right
+        # (score t+8); read positionally in the frame's own order it would be wrong (score 2*0 - x1 < t for the fixed configs)
+        a, b = pt(8.0)
+        self.label_sym("Lp", [(b, a, 1)], cols=("x2", "x1", "y"))
+        a, b = pt(-8.0)
+        self.label_sym("Lr", [(1, b, a)], cols=("y", "x2", "x1"))   # swapped features, wrong in the reference's order
+        self.label_sym("L2", [pt(8.0) + (1,), pt(-0.5) + (1,)])  # two rows: refused
         self.label_sym("L0", [])                                # no row: refused
-        self.label_sym("Lx", [(t + 8.0, 0.0, 1)], cols=("x1", "zz", "y"))        # a renamed column: refused
-        self.label_sym("Lm", [(t + 8.0, 1)], cols=("x1", "y"))                   # a missing column: refused
-        self.label_sym("Le", [(t + 8.0, 0.0, 1, 3.0)], cols=("x1", "x2", "y", "w"))  # an extra column: refused
-        self.label_sym("Lq", [(t + 8.0, 0.0, 1)], cols=("x1", "x1", "y"))        # right number, duplicate name: refused
+        self.label_sym("Lx", [pt(8.0) + (1,)], cols=("x1", "zz", "y"))           # a renamed column: refused
+        self.label_sym("Lm", [(pt(8.0)[0], 1)], cols=("x1", "y"))                # a missing column: refused
+        self.label_sym("Le", [pt(8.0) + (1, 3.0)], cols=("x1", "x2", "y", "w"))  # an extra column: refused
+        self.label_sym("Lq", [pt(8.0) + (1,)], cols=("x1", "x1", "y"))           # right number, duplicate name: refused
         return self
 
     def new_detector(self):
@@ -204,15 +214,16 @@ class Config:
 
 
 PLAIN = ["Ui", "Uo", "U2", "Lc", "Lw", "L2", "Lx"]
-FULL = ["Ui", "Uo", "U2", "U0", "Lc", "Lw", "L2", "L0", "Lx", "Lm", "Le", "Lq", "U3", "Ld", "Lv", "Lp"]
+FULL = ["Ui", "Uo", "U2", "U0", "Lc", "Lw", "Lp", "L2", "L0", "Lx", "Lm", "Le", "Lq", "U3", "Ld", "Lv", "Lr"]
 # in the reduced exploration these are tried from every reached state but not extended (they only vary the sample's data)
-LEAF_ONLY = {"U3", "Ld", "Lv", "Lp"}
+LEAF_ONLY = {"U3", "Ld", "Lv", "Lr"}
+START = (("x1", "x2"), ())      # harness bookkeeping: (feature order of the current reference, labelled samples of the round)
 
-# reference batches (scores sum to 0, so the user's classifier has threshold 0); all statistics dyadic
-REF8 = [(-8, 0, 0), (-4, 0, 0), (-0.5, 0, 0), (0.5, 0, 1), (4, 0, 1), (8, 0, 1), (0.25, 0, 0), (-0.25, 0, 1)]
-REF4 = [(-8, 0, 0), (-0.5, 0, 1), (0.5, 0, 1), (8, 0, 1)]
-REF6 = [(-8, 0, 0), (-4, 0, 0), (-0.5, 0, 1), (0.5, 0, 1), (4, 0, 0), (8, 0, 1)]
-REF5 = [(-8, 0, 0), (-0.5, 0, 0), (0.5, 0, 1), (4, 0, 0), (4, 0, 1)]
+# reference batches (scores 2*x1 - x2 sum to 0, so the user's classifier has threshold 0); all statistics dyadic
+REF8 = [(-4, 0, 0), (-2, 0, 0), (-0.25, 0, 0), (0.25, 0, 1), (2, 0, 1), (4, 0, 1), (0.125, 0, 0), (-0.125, 0, 1)]
+REF4 = [(-4, 0, 0), (-0.25, 0, 1), (0.25, 0, 1), (4, 0, 1)]
+REF6 = [(-4, 0, 0), (-2, 0, 0), (-0.25, 0, 1), (0.25, 0, 1), (2, 0, 0), (4, 0, 1)]
+REF5 = [(-4, 0, 0), (-0.25, 0, 0), (0.25, 0, 1), (2, 0, 0), (2, 0, 1)]
 
 
 _CFGS = []
@@ -361,26 +372,47 @@ def prescribe(cfg, pre, sym, gathered):
     if len(sym.cols) != len(COLS) or set(sym.cols) != set(COLS):
         info["branch"] = "refuse:label-columns"
         return "EXC:ValueError", e, gathered, info
-    gathered = gathered + (sym.sample,)
+    # The specification of the accuracy test: the user's classifier on the labelled samples with the features in the order of
+    # the *current reference* (what `oracle_data[feature_columns]` selects).  The frame that accumulates the samples keeps the
+    # column order of the round's first sample, and that order is what the adopted reference then carries (DESIGN §6, noted).
+    forder, samples = gathered
+
+    def right(r, order=None):
+        v = {"x1": r[0], "x2": r[1]}
+        o = order or forder
+        return int(int(cfg.clf.predict(np.array([[v[o[0]], v[o[1]]]]))[0]) == r[2])
+
+    samples = samples + (sym.sample,)
+    gathered = (forder, samples)
     n = p["n_oracle"] + 1
     e.update(drift="N", n_oracle=n)
     info["branch"] = "label"
+    info["correct"] = right(sym.sample)
+    if sym.sample[3] != forder:
+        info["permuted"] = True
     if n == p["oracle_req"]:
-        rows = gathered[-n:] if len(gathered) >= n else gathered
-        correct = sum(int(int(cfg.clf.predict(np.array([[r[0], r[1]]]))[0]) == r[2]) for r in rows)
+        rows = samples[-n:] if len(samples) >= n else samples
+        correct = sum(right(r) for r in rows)
+        if rows[0][3] != forder:
+            # would the verdict differ if the features were read in the accumulated frame's own order?
+            alt = sum(right(r, rows[0][3]) for r in rows)
+            info["order_sensitive"] = ((p["ref_acc"] - alt / n > cfg.sens * p["ref_acc_std"])
+                                       != (p["ref_acc"] - correct / n > cfg.sens * p["ref_acc_std"]))
         acc = correct / n
         lhs, rhs = p["ref_acc"] - acc, cfg.sens * p["ref_acc_std"]
         drift = lhs > rhs
         exact = (Fraction(acc) == Fraction(correct, n) and Fraction(lhs) == Fraction(p["ref_acc"]) - Fraction(correct, n)
                  and Fraction(rhs) == Fraction(cfg.sens) * Fraction(p["ref_acc_std"]))
-        nr = ref_stats(rows, cfg.k, cfg.width) if len(rows) == n and n >= cfg.k else None
+        nforder = rows[0][3]           # the adopted frame has the first sample's column order
+        pos = [({"x1": r[0], "x2": r[1]}[nforder[0]], {"x1": r[0], "x2": r[1]}[nforder[1]], r[2]) for r in rows]
+        nr = ref_stats(pos, cfg.k, cfg.width) if len(rows) == n and n >= cfg.k else None
         info.update(decision=drift, margin=rel_margin(lhs, rhs), boundary=(lhs == rhs), newref=nr, exact=exact,
                     branch="label-N:" + ("drift" if drift else "ruled-out"))
         e.update(drift="D" if drift else "N", waiting=0, n_oracle=0)
         if nr is not None:
             e.update(ref_len=nr[0], ref_md=nr[1], ref_md_std=nr[2], ref_acc=nr[3], ref_acc_std=nr[4],
                      md=nr[1], lam=(nr[0] - 1) / nr[0])
-        gathered = ()
+        gathered = (nforder, ())
     return "ok", e, gathered, info
 
 
@@ -410,7 +442,7 @@ def model_line(depth, sym, info):
     nr = info.get("newref")
     tail = (f"{nr[0]} {core.f2b(nr[1])} {core.f2b(nr[2])} {core.f2b(nr[3])} {core.f2b(nr[4])}" if nr is not None
             else f"0 {core.f2b(NAN)} {core.f2b(NAN)} {core.f2b(NAN)} {core.f2b(NAN)}")
-    return f"{depth} l {sym.rows} {sym.correct} {sym.model_cols()} {tail}"
+    return f"{depth} l {sym.rows} {info.get('correct', 0)} {sym.model_cols()} {tail}"
 
 
 def obs_line(out, o):
@@ -464,6 +496,10 @@ def check_call(acc, cfg, seq, pre, sym, out, post, gathered):
     """run the clauses on one implementation call; -> (ok, gathered', info)"""
     exp_out, e, gathered2, info = prescribe(cfg, pre, sym, gathered)
     acc.count("branch:" + info["branch"])
+    if info.get("permuted"):
+        acc.count("permuted-sample-accepted" + (":first-of-round" if pre[2] == 0 else ""))
+    if "order_sensitive" in info:
+        acc.count("decision-with-permuted-first-sample" + (":verdict-depends-on-order" if info["order_sensitive"] else ""))
     if info["boundary"]:
         acc.count("boundary-equal:" + ("warning" if sym.kind == "u" else "confirm") + (":exact" if info["exact"] else ":rounded"))
     step = len(seq) - 1
@@ -537,7 +573,7 @@ def explore(task):
     det, pre = start(acc, cfg, report=not prefix)
     if det is None:
         return acc_finish(acc)
-    gathered, seq, flag = (), [], False
+    gathered, seq, flag = START, [], False
     # walk the prefix (its nodes are counted by the shard with the empty / shorter prefix)
     for d, name in enumerate(prefix):
         sym = cfg.syms[name]
@@ -623,7 +659,7 @@ def random_case(task):
             s = float(rng.choice(grid))
             yv = int(s > 0) if rng.random() < 0.8 else int(s <= 0)
             x2 = float(rng.choice([0, 0, 0.25, -0.25]))
-            rows.append((s - x2, x2, yv))
+            rows.append(((s + x2) / 2, x2, yv))
         olen = None if rng.random() < 0.3 else int(rng.integers(k, 9))
         sens = [0, 0.25, 0.5, 0.5, 1, 1, 1.5, 2, 2, 3][int(rng.integers(0, 10))]
         width = float(rng.choice([0.5, 1.0, 2.0]))
@@ -636,7 +672,7 @@ def random_case(task):
     det, pre = start(acc, cfg)
     if det is None:
         return acc_finish(acc)
-    gathered, seq = (), []
+    gathered, seq = START, []
     p_in, p_ok = float(rng.choice([0.1, 0.5, 0.9])), float(rng.choice([0.2, 0.6, 0.95]))
     # closed form bookkeeping: md0 and signals since the margin density last (re)started
     md0, sigs, lamF = Fraction(pre[6]), [], Fraction(pre[8] - 1, pre[8])
@@ -658,16 +694,21 @@ def random_case(task):
                 pred = int(s > 0)      # relative score; the classifier's threshold is added below
                 yv = pred if rng.random() < p_ok else 1 - pred
                 x2 = float(rng.choice([0, 0.25]))
-                name = f"L({t + s - x2},{x2},{yv})"
-                sym = cfg.label_sym(name, [(t + s - x2, x2, yv)])
+                x1 = cfg.pt(s, x2)[0]
+                if rng.random() < 0.2:      # features swapped in the frame (same set of names: accepted)
+                    name = f"Lswap({x1},{x2},{yv})"
+                    sym = cfg.label_sym(name, [(x2, x1, yv)], cols=("x2", "x1", "y"))
+                else:
+                    name = f"L({x1},{x2},{yv})"
+                    sym = cfg.label_sym(name, [(x1, x2, yv)])
         else:
             if rng.random() < 0.05:
                 name = "U3"; sym = cfg.syms[name]
             else:
                 inm = rng.random() < p_in
                 s = float(rng.choice([-1, -0.5, 0.25, 0.75, 1])) * cfg.width if inm else float(rng.choice([-8, 4, 6])) * cfg.width
-                name = f"U({t + s},0)"
-                sym = cfg.update_sym(name, [(t + s, 0.0)])
+                name = f"U({cfg.pt(s)[0]},0)"
+                sym = cfg.update_sym(name, [cfg.pt(s)])
         out, post = do_call(det, sym)
         seq.append(name)
         ok, gathered, info = check_call(acc, cfg, seq, pre, sym, out, post, gathered)
@@ -752,7 +793,7 @@ def plan(ctx):
     """shards of the exhaustive part, most expensive first"""
     ncfg = len(fixed_configs())
     if ctx.quick:
-        plain_len, plain_default, reduced_len, shard = {0: 6}, 5, 8, 1
+        plain_len, plain_default, reduced_len, shard = {0: 6}, 5, 7, 1
     else:
         plain_len, plain_default, reduced_len, shard = {0: 7, 1: 7}, 6, 10, 2
     tasks = []
@@ -803,7 +844,8 @@ def run(ctx):
                 "impl": trace(cfgs[0], ["Ui", "Ui", "Uo", "Lc", "Lx", "Lw", "Lw", "Lw", "Ui"])})
     need = ["boundary-equal:warning:exact", "boundary-equal:confirm:exact", "reached:drift-confirmed", "branch:update-after-drift",
             "branch:label-N:ruled-out", "branch:refuse:label-columns", "branch:refuse:update-while-waiting",
-            "random:cases-with-2+-decisions", "closed-form-evaluations"]
+            "random:cases-with-2+-decisions", "closed-form-evaluations", "permuted-sample-accepted:first-of-round",
+            "decision-with-permuted-first-sample:verdict-depends-on-order"]
     if not ctx.failing and not ctx.mismatches:
         missing = [n for n in need if not ctx.stats.get(n)]
         if missing:
@@ -838,7 +880,7 @@ def replay(ctx, path):
             (cfg.update_sym if d["call"] == "update" else cfg.label_sym)(d["name"], [tuple(x) for x in d["rows"]], tuple(d["columns"]))
     acc = Acc()
     det = cfg.new_detector()
-    pre, gathered, seq = observe(det), (), []
+    pre, gathered, seq = observe(det), START, []
     print("config:", json.dumps(cfg.describe()))
     print("initial:", dict(zip(OBS, pre)))
     for name in r["calls"]:
